@@ -18,6 +18,7 @@ type Result struct {
 	Viol      []string          // violations of the property statement (short, stable texts)
 	OpenErr   error
 	Committed uint64            // committed id after recovery (and after the syncer's first pass)
+	Cid0      uint64            // committed id right after Open
 	Reloaded  uint64            // precommitted txs reloaded by recovery
 	Fresh     []*txRef          // transactions committed (and acknowledged) after recovery
 	Refs      map[uint64]*txRef // the recovered committed history, as far as it is readable
@@ -66,6 +67,7 @@ func CheckImage(dir string, cfg Cfg, refs map[uint64]*txRef, maxAcked uint64, re
 	cid0, _ := st.CommittedAlh()
 	pid := st.LastPrecommittedTxID()
 	res.Reloaded = pid - cid0
+	res.Cid0 = cid0
 	if cid0 < maxAcked {
 		res.violf("acknowledged tx lost: recovered committed id %d < acknowledged %d", cid0, maxAcked)
 	}
@@ -110,7 +112,7 @@ func CheckImage(dir string, cfg Cfg, refs map[uint64]*txRef, maxAcked uint64, re
 		prev = h.Alh()
 		lastHdr = h
 		if !blRootOK(h, alhs) {
-			res.violf("recovered tx %d: BlRoot is not the Merkle root of the recovered transactions 1..%d", id, h.BlTxID)
+			res.violf("recovered tx %d: BlRoot is not the Merkle root of the recovered transactions 1..%d (the hash tree holds a stale leaf)", id, h.BlTxID)
 			staleTree = true
 		}
 		alhs = append(alhs, h.Alh())
